@@ -14,7 +14,7 @@ import (
 
 func init() {
 	PropertyText["C07"] = [2]string{
-		"Decides the exhaustiveness of the HTML extractor's tag/attribute table — an attribute nobody reads is never fetched: for img[src|srcset], script[src], link[href], source[src|srcset], video[src], audio[src], url(...) in <style> and in style attributes, and a[href] for outlinks there is a Find over the tag whose callback reads the attribute, the value flows into the returned list (all comma-separated srcset candidates), the only conditions are 'attribute exists', the tag's own --disable-html-tag test (exact match) and, for link, the rel=alternate skip (R-HTML-TABLE); every extracted asset becomes a fresh child and every outlink reaches the returned list unless the hop rule skips it (R-HTML-TO-CHILD); children are resolved against their parent page by NormalizeURL (R-URL-SHAPE resolve-base, R-SCOPE-GATE). The module's own Read loops look at the byte count before acting on the error, so the tail of a document returned together with io.EOF is not dropped (R-READ-CONSUME); the redirect-counting depth decides nothing — a page reached through a redirect is not treated as an asset (R-DEPTH-KIND). References are resolved against the item's own parent (R-NORMALIZE-PARENT); every generic predicate consulted before IsHTML in the dispatch looks at the content type, the sniffed type or the body (R-DISPATCH-BEFORE-HTML); HTML bodies pass ProcessBody's keep-test (R-BODY-KEPT).",
+		"Decides the exhaustiveness of the HTML extractor's tag/attribute table — an attribute nobody reads is never fetched: for img[src|srcset], script[src], link[href], source[src|srcset], video[src], audio[src], url(...) in <style> and in style attributes, and a[href] for outlinks there is a Find over the tag whose callback reads the attribute, the value flows into the returned list (all comma-separated srcset candidates), the only conditions are 'attribute exists', the tag's own --disable-html-tag test (exact match) and, for link, the rel=alternate skip (R-HTML-TABLE); every extracted asset becomes a fresh child and every outlink reaches the returned list unless the hop rule skips it (R-HTML-TO-CHILD); children are resolved against their parent page by NormalizeURL (R-URL-SHAPE resolve-base, R-SCOPE-GATE). The module's own Read loops look at the byte count before acting on the error, so the tail of a document returned together with io.EOF is not dropped (R-READ-CONSUME); the redirect-counting depth decides nothing — a page reached through a redirect is not treated as an asset (R-DEPTH-KIND). References are resolved against the item's own parent (R-NORMALIZE-PARENT); every generic predicate consulted before IsHTML in the dispatch looks at the content type, the sniffed type or the body (R-DISPATCH-BEFORE-HTML); HTML bodies pass ProcessBody's keep-test (R-BODY-KEPT). Whoever reads the shared body rewinds it on every exit (R-BODY-REWIND).",
 		"Not decided: resolution 'as a browser would' on runtime strings (ada / net/url semantics), goquery's parsing of malformed HTML, interplay with seen/scope filtering.",
 	}
 	register(&core.Rule{ID: "R-HTML-TABLE", Props: []string{"C07"}, Doc: "extractor.HTMLAssets / HTMLOutlinks: each required (tag, attribute) pair has a Find whose Each-callback reads the attribute and appends its value (every srcset candidate) to the returned slice, conditional only on the attribute's existence; each tag block is disabled exactly by slices.Contains(DisableHTMLTag, <that tag>)", Run: ruleHTMLTable})
